@@ -215,7 +215,7 @@ def TK.syncO (s : TK) (o : Owner) (snap : Snapshot) (oc : Outcome) : TK × SyncR
   | some (t', em) =>
     if oc = .updFail ∧ em.ups ≠ [] then (s, .updFailed)
     else if oc = .delFail ∧ em.dels ≠ [] then
-      (⟨s.t, applyEmit s.K ⟨em.ups, []⟩, s.log ++ [(o, ⟨em.ups, []⟩)]⟩, .delFailed)
+      (⟨s.t, applyEmit s.K ⟨em.ups, []⟩, if em.ups.isEmpty then s.log else s.log ++ [(o, ⟨em.ups, []⟩)]⟩, .delFailed)
     else (⟨t', applyEmit s.K em, s.log ++ [(o, em)]⟩, .done)
 
 /-! ## histories of `syncOwner` calls and what they denote (specification side) -/
